@@ -17,7 +17,7 @@ def run_one(patch):
         res = []
         ok = True
         for prop in [p for p in expect.get("props", []) if ONLY_PROP is None or p == ONLY_PROP]:
-            r = subprocess.run([os.path.join(ROOT, "check"), prop, "--repo", rp, "--no-evidence"], cwd=ROOT, stdout=subprocess.PIPE, stderr=subprocess.STDOUT, text=True)
+            r = subprocess.run([os.path.join(ROOT, "check"), prop, "--repo", rp, "--no-evidence", "--no-replay"], cwd=ROOT, stdout=subprocess.PIPE, stderr=subprocess.STDOUT, text=True)
             viol = [l for l in r.stdout.split("\n") if l.startswith("VIOLATION")]
             obs = sorted({re.search(r"obligation=(\S+)", l).group(1) for l in viol})
             if expect.get("green"):
